@@ -393,6 +393,8 @@ META = (META[0] + ' RSTEP (downward scans test the lower bound before each step)
 
 META = (META[0] + " DISTGUARD (a search loop guarded by `last - first >= X` that reads a whole second range from its cursor needs X >= that range's length; controls in fixtures/extra8_pos.hpp); PTRCOUNT also rejects a subscript that is the count parameter itself.", META[1])
 
+META = (META[0] + ' FIRSTREAD (shared with C08: the first character a search reads lies inside the view, an empty view is never read).', META[1])
+
 
 def run(chk, tier):
     db = D.load("plain")
@@ -464,6 +466,9 @@ def run(chk, tier):
     from ..rules import extra8 as _X8
     _X8.dist_guard_area(chk, cdb, ['_algorithm/', '_numeric/', '_string_view/', '_strings/'])      # DISTGUARD
     _X8.positive_controls(chk, D, ('DISTGUARD',))
+    from ..rules import exits as _EXF
+    if _EXF.check_first_read(chk, D.load('plain')) < 4:      # FIRSTREAD: an empty view is never read, the first read is inside the view
+        chk.analysis_broken('FIRSTREAD: fewer than 4 searches that scan by themselves (floor 4)')
     if _IT.rstep_area(chk, cdb, [""]) < 8:
         chk.analysis_broken("RSTEP: fewer than 8 downward scans found (floor 8)")
     # ---- NEGMIN: no negation of a value the function itself believes may be numeric_limits::min()
